@@ -117,6 +117,9 @@ type CSolve struct {
 	Det    bool `json:"det"`
 	Iters  int  `json:"iters"`
 	Slice  int  `json:"slice,omitempty"` // iterations per run handed out by the options factory (0 = the default factory)
+	// Mode (repro stream): "" / "parallel" = the parallel solver as shipped; "parallel-norestart" = the parallel solver
+	// with a solver factory whose restart operator never fires; "single" = the single solver read by a plain consumer
+	Mode string `json:"mode,omitempty"`
 }
 
 // Profile steers which features a generated case may use.
